@@ -37,6 +37,12 @@ def model_line(line, impl_out):
     for o, r in zip(ops, outs):
         p = o.split(".")
         pairs = []     # (node, dst, salt)
+        if p[0] == "Y":
+            # forged under a guessable key: for the model a datagram that is not a genuine seal under any key the node holds;
+            # only its key id byte and its length matter (8 header bytes + plaintext + 16 tag bytes)
+            plen = 0 if p[7] == "-" else len(p[7]) // 2
+            o = "W.%s.%s.%02x%s" % (p[1], p[2], int(p[4]), "00" * (7 + plen + 16))
+            p = o.split(".")
         if p[0] == "U" and r.startswith("zc~"):
             # the real run says: this truncation removed only zero bytes of a genuine handshake datagram, so the handshake
             # parser saw the complete message (finding F11): for the model that is the verbatim injection of datagram k
